@@ -563,6 +563,11 @@ func (wf *Workflow[I, O]) compile(ctx context.Context, options *graphCompileOpti
 			} else {
 				wf.g.handlerPreNode[n.key] = append([]handlerPair{pair}, wf.g.handlerPreNode[n.key]...)
 			}
+			// a node fed by static values only has no mapping record of its own: register it (without mappings),
+			// so that the graph installs the map-to-input converter behind the handler above
+			if _, ok := wf.g.fieldMappingRecords[n.key]; !ok {
+				wf.g.fieldMappingRecords[n.key] = nil
+			}
 			// applied: a later Compile must not register the paths and the handler again
 			n.staticValues = make(map[string]any)
 		}
